@@ -44,11 +44,11 @@ fn valid_sources() -> &'static Vec<String> {
 fn n_batches(prop: &str, tier: Tier) -> u64 {
     match (prop, tier) {
         ("C08", Tier::Quick) => 8_000,
-        ("C08", Tier::Thorough) => 1_200_000,
+        ("C08", Tier::Thorough) => 300_000,
         ("C09", Tier::Quick) => 1_500,
-        ("C09", Tier::Thorough) => 300_000,
+        ("C09", Tier::Thorough) => 120_000,
         ("C10", Tier::Quick) => 2_500,
-        ("C10", Tier::Thorough) => 600_000,
+        ("C10", Tier::Thorough) => 300_000,
         ("C07", Tier::Quick) => 7_000,
         ("C07", Tier::Thorough) => 900_000,
         _ => 100,
